@@ -125,10 +125,12 @@ def _work(unit):
     groups = {}
     order = []
     ill = None
+    n_ill = 0
     sample = None
     for spec in gen.expand(unit):
         if not gen.valid(spec):
             ill = ill or [gen.to_json(spec), gen.well_formed(spec[2])]
+            n_ill += 1
             continue
         n += 1
         if sample is None:
@@ -149,7 +151,7 @@ def _work(unit):
                 else:
                     g[0] += 1
     return {"unit": unit, "n": n, "nontrivial": nontriv, "digests": b"".join(digs), "outcomes": outcomes,
-            "groups": [(k, groups[k]) for k in order], "stats": st, "ill": ill,
+            "groups": [(k, groups[k]) for k in order], "stats": st, "ill": ill, "n_ill": n_ill,
             "sample": gen.to_json(sample) if sample is not None else None}
 
 
@@ -230,22 +232,33 @@ def transport_case(spec, S, T, stats):
     return fails, ("written_" + ("malformed" if fails else "accepted"), "non_ascii" if has_non_ascii(spec) else "ascii"), frames
 
 
-def transport_signatures(spec, S, T, fails):
+def transport_signatures(spec, S, T, fails, collapsed=()):
     """Same signature as the encoder half when the encoder half shows the same clause for the same input;
     a clause that only fails at the transport gets its own prefix."""
     st = c01._new_stats()
     enc_fails, _ = evaluate(spec, S, T, st)
     enc_codes = {c for c, _w, _d in enc_fails}
+    cause = "non_ascii_value" if has_non_ascii(spec) else "ascii_message"
     out = []
+    seen_only = set()
     for code, where, detail in fails:
         if where == "transport_session_frame":
+            # frames of the logon exchange itself: first failing clause only
+            if "session" in seen_only:
+                continue
+            seen_only.add("session")
             sig = f"transport_frame_malformed|session_frame:{code}"
         elif code == "transmitted_despite_error":
-            sig = "transmitted_despite_error|" + ("non_ascii_value" if has_non_ascii(spec) else gen.cause_label(spec))
+            sig = f"transmitted_despite_error|{cause}"
         elif code in enc_codes:
             sig, _ = signature_for(spec, S, T, code)
+            if code in collapsed and cause == "ascii_message":
+                sig = f"frame_malformed|ascii_messages_of_various_shapes:{code}"
         else:
-            cause = "non_ascii_value" if has_non_ascii(spec) else gen.cause_label(spec)
+            # fails at the transport only: name the first failing clause (the later ones follow from it)
+            if "msg" in seen_only:
+                continue
+            seen_only.add("msg")
             sig = f"transport_frame_malformed|{cause}:{code}"
         out.append((sig, code, detail))
     return out
@@ -255,6 +268,7 @@ def transport_signatures(spec, S, T, fails):
 # entry points
 # --------------------------------------------------------------------------
 MAX_SHRINK_GROUPS = 400
+MAX_LABELS = 3
 
 
 def run_part(ctx):
@@ -267,7 +281,17 @@ def run_part(ctx):
                 "without minimisation")
     head = groups[:MAX_SHRINK_GROUPS]
     sigs = ctx.pmap(_sig_work, [(k, v[1]) for k, v in head], chunk=1)
+    # framing depends on the bytes, not on the message structure: when one clause fails for more than
+    # MAX_LABELS differently-shaped minimal ASCII inputs, the shape is not the cause - report one signature
+    labels = {}
+    for (k, _v), (sig, _small) in zip(head, sigs):
+        if "|non_ascii_value:" not in sig:
+            labels.setdefault(k[0], [])
+            if sig not in labels[k[0]]:
+                labels[k[0]].append(sig)
     for (k, (cnt, spec_json, detail)), (sig, small) in zip(head, sigs):
+        if len(labels.get(k[0], ())) > MAX_LABELS and "|non_ascii_value:" not in sig:
+            sig = f"frame_malformed|ascii_messages_of_various_shapes:{k[0]}"
         ctx.merge_violations([make_violation(sig, k[0], spec_json, small, detail, S, T, "enc", cnt)])
     for k, (cnt, spec_json, detail) in groups[MAX_SHRINK_GROUPS:]:
         sig = "frame_malformed|" + "+".join(x for x in k[2] if x and x != "plain") + ":" + k[0]
@@ -281,7 +305,8 @@ def run_part(ctx):
         fails, outcome, frames = transport_case(spec, S, T, tst)
         n_frames += len(frames)
         ctx.outcomes.add(("transport",) + tuple(outcome))
-        for sig, code, detail in transport_signatures(spec, S, T, fails):
+        collapsed = {c for c, l in labels.items() if len(l) > MAX_LABELS}
+        for sig, code, detail in transport_signatures(spec, S, T, fails, collapsed):
             ctx.merge_violations([make_violation(sig, code, gen.to_json(spec), None, detail, S, T, "transport")])
 
     ctx.count(states=tot["states"] + len(tspecs), transitions=tot["encode_calls"] + len(tspecs), traces=tot["n"] + len(tspecs),
@@ -321,9 +346,16 @@ def replay_part(ctx, rep):
         fails, _o, _f = transport_case(spec, S, T, c01._new_stats())
         for sig, code, detail in transport_signatures(spec, S, T, fails):
             out.append(make_violation(sig, code, rep["spec"], None, detail, S, T, "transport"))
+            if sig.startswith("frame_malformed|") and "|non_ascii_value:" not in sig:
+                out.append(make_violation(f"frame_malformed|ascii_messages_of_various_shapes:{code}", code,
+                                          rep["spec"], None, detail, S, T, "transport"))
         return out
     fails, _ = evaluate(spec, S, T, c01._new_stats())
     for code, _w, detail in fails:
         sig, small = signature_for(spec, S, T, code)
         out.append(make_violation(sig, code, rep["spec"], gen.to_json(small), detail, S, T, "enc"))
+        if "|non_ascii_value:" not in sig:
+            # the explorer may have reported this case under the collapsed signature (see run_part)
+            out.append(make_violation(f"frame_malformed|ascii_messages_of_various_shapes:{code}", code, rep["spec"],
+                                      gen.to_json(small), detail, S, T, "enc"))
     return out
